@@ -195,15 +195,21 @@ fn lattice(seed: u64, idx: u64, variant: u64, stats: &mut Vec<(String, usize)>) 
         do_tip(&mut w, &mut rec, tip);
     }
     // first a short prefix (or nothing: no fully-scanned height, hence no floor)
-    let a = [0u32, 1, 2, 7][(variant % 4) as usize];
+    let gap = if variant % 3 == 2 { r.range(8, 30) as u32 } else { 0 };
+    let a = if gap > 0 { [1u32, 2, 7, 12][(variant % 4) as usize] } else { [0u32, 1, 2, 7][(variant % 4) as usize] };
     if a > 0 {
         do_scan(&mut w, &mut rec, BASE, a as usize);
     }
-    // the batch extending the frontier: floor = last - 100 > from  <=>  length >= 102
-    let n = [101usize, 102, 103, 140, 180][((variant / 4) % 5) as usize];
-    do_scan(&mut w, &mut rec, BASE + a, n);
+    // the batch extending the frontier: floor = last - 100 > from  <=>  length >= 102;
+    // with a gap it is a long out-of-order batch (every block must be tracked), and the gap
+    // (receipts whose spends lie in the long batch) is scanned afterwards
+    let n = if gap > 0 { [150usize, 180][((variant / 4) % 2) as usize] } else { [101usize, 102, 103, 140, 180][((variant / 4) % 5) as usize] };
+    do_scan(&mut w, &mut rec, BASE + a + gap, n);
+    if gap > 0 {
+        do_scan(&mut w, &mut rec, BASE + a, gap as usize);
+    }
     // the rest in two batches (pruning below fully_scanned - 100 happens here)
-    let mut h = BASE + a + n as u32;
+    let mut h = BASE + a + gap + n as u32;
     while h <= tip {
         let l = r.range(20, 70).min((tip - h + 1) as u64) as usize;
         do_scan(&mut w, &mut rec, h, l);
@@ -399,7 +405,7 @@ fn main() {
     let a = args();
     quiet_panics();
     let mut stats: Vec<(String, usize)> = vec![];
-    let (n_short, n_long) = if a.search { (60, 16) } else if a.thorough() { (220, 60) } else { (24, 5) };
+    let (n_short, n_long) = if a.search { (60, 16) } else if a.thorough() { (220, 60) } else { (22, 4) };
     let mut rr = Rng::new(a.seed, 7);
     let mut idx = 0u64;
     for _ in 0..n_short {
@@ -424,7 +430,7 @@ fn main() {
         history(a.seed, idx, &plan, &mut stats);
         idx += 1;
     }
-    let n_lat = if a.search { 20 } else if a.thorough() { 60 } else { 8 };
+    let n_lat = if a.search { 24 } else if a.thorough() { 60 } else { 12 };
     for v in 0..n_lat {
         lattice(a.seed, idx, v + a.seed % 20, &mut stats);
         idx += 1;
